@@ -165,6 +165,17 @@ CLAIMED["C16"] = dict(
     technique="backward data slice for non-interference, CFG specialisation, finite truth table, SUB, table checks",
     design="3/C16")
 
+CLAIMED["C17"] = dict(
+    text="Who-may-read rule for the launch environment in the environment builders: every os.environ occurrence is "
+         "classified into four frozen key-restricted forms (DEFAULTS imports by name, literal search-path list for "
+         "interpreter components only when missing, whole environment only as stand-in for a missing default "
+         "environment, expandvars after the environment's own variables); helpers on the path do not read it. Plus the "
+         "branch table of environmentWithName ('none' adds nothing, default vs named, unknown names propagate), "
+         "platform-over-default layering and lower-casing agreement of readers/writers. Holds for every launch "
+         "environment; the resulting dictionary for a concrete combination is not computed.",
+    technique="who-may-read classification of os.environ uses, CFG branch-table and handler swallow-path analysis",
+    design="3/C17")
+
 NOT_APPLICABLE = {
     "C20": "arithmetic over floating-point stage weights (sums, int(w*1000) truncation, fallback split) for every "
            "stage count: no structural clause is a necessary condition; needs numeric exploration or a solver, i.e. "
